@@ -60,8 +60,8 @@ REPS = [
     dict(rep="sparse", labels="int", alabels="str", explicit_list=False, dist="sparse"),
     dict(rep="sparse", labels="mixed", alabels="tuple", explicit_list=False, dist="sparse"),
 ]
-TIERS = {"quick": dict(n_inst=112, per_inst=6, n_mc=16, mc_cap=120),
-         "thorough": dict(n_inst=1500, per_inst=8, n_mc=300, mc_cap=600)}
+TIERS = {"quick": dict(n_inst=140, per_inst=6, n_mc=20, mc_cap=120),
+         "thorough": dict(n_inst=1200, per_inst=8, n_mc=160, mc_cap=400)}
 FLAGS = [(0, 0), (1, 1), (0, 1), (1, 0)]
 HKINDS = ["const", "exact", "slack", "vslack"]
 INST_KEYS = ("N", "K", "PD", "GN", "GD", "ID", "abs", "avail", "P", "R", "p0")
